@@ -2,7 +2,7 @@
    Only statements; proofs by reference (proofs/MigrateProofs.v generic, proofs/MigrateConcrete.v over the
    script lists regenerated from ctrl/qryn/sql/*.sql). *)
 From Coq Require Import List String NArith ZArith Bool Arith.
-From Qryn Require Import model.Migrate proofs.MigrateProofs proofs.MigrateClusterProofs gen.GenScripts proofs.MigrateConcrete.
+From Qryn Require Import model.Migrate proofs.MigrateProofs proofs.MigrateClusterProofs proofs.MigrateConcProofs gen.GenScripts proofs.MigrateConcrete.
 Import ListNotations.
 Open Scope nat_scope.
 
@@ -141,3 +141,22 @@ Theorem partial_application_matters : old_shape_cl_stuck = true /\
   mon_ok [EScript SLog 0 (RFPartial); EScript SLog 0 ROk; EInsVer SLog 1 ROk] = true.
 Proof. exact (conj old_shape_cl_does_not_converge partial_then_recorded_rejected). Qed.
 Print Assumptions partial_application_matters.
+
+(* Two starters initialising one database at the same time (any interleaving of their database calls, any
+   failures, any statement semantics and scripts): each process writes a version only right after it saw the
+   script of that version complete -- "no version for a script that did not complete" survives concurrency. *)
+Theorem concurrent_version_after_own_script :
+  forall (cat stmt : Type) (exec : stmt -> cat -> option cat) (pexec : list bool -> stmt -> cat -> cat)
+         (scripts : stream -> list stmt) (c : cfg) (sched : list (bool * outcome)) (d : db cat),
+  pmon None (plog false (snd (conc_run cat stmt exec pexec scripts c sched (proc0 c) (proc0 c) d))) = true /\
+  pmon None (plog true (snd (conc_run cat stmt exec pexec scripts c sched (proc0 c) (proc0 c) d))) = true.
+Proof. exact conc_version_after_own_script. Qed.
+Print Assumptions concurrent_version_after_own_script.
+
+(* ... but file order and convergence do not: with the repository's scripts on a single node there is an
+   interleaving of two starters (conc_sched) whose merged log the monitor rejects and after which every
+   undisturbed start returns nil with all versions current while table samples_read is missing
+   (findings.d: concurrent-starters). *)
+Theorem concurrent_starters_refuted : conc_witness = true.
+Proof. exact conc_witness_holds. Qed.
+Print Assumptions concurrent_starters_refuted.
